@@ -1197,6 +1197,13 @@ class Variogram(object):
         # re-calculate distances
         self._X = MetricSpace(self._X.coords, func, self._X.max_dist)
 
+        # everything derived from the distances is outdated
+        if getattr(self, '_bin_func_name', None) != 'custom_bin_edges':
+            self._bins = None
+        self._groups = None
+        self._bin_count = None
+        self._diff = None
+
     @property
     def distance(self):
         # handle sparse matrix
